@@ -153,11 +153,11 @@ pub fn plan() -> Plan {
         if wanted {
             match KIND[v] {
                 0 => {
-                    let val = if v == rich { sym::any_str("val", VAL, 0, 2) } else { sym::any_str("v", "set:a= ", 1, 1) };
+                    let val = if v == rich { sym::any_str("val", VAL, 0, sym::bound(2, 3)) } else { sym::any_str("v", "set:a= ", 1, 1) };
                     p.strs.push((v, val));
                 }
                 1 => {
-                    let mut items = vec![if v == rich { sym::any_str("val", VAL, 0, 2) } else { "x".to_string() }];
+                    let mut items = vec![if v == rich { sym::any_str("val", VAL, 0, sym::bound(2, 3)) } else { "x".to_string() }];
                     if v == rich && sym::choose("second-line", 2) == 1 {
                         items.push(sym::any_str("val2", VAL, 0, 1));
                     }
